@@ -2,6 +2,7 @@ package vstub
 
 import (
 	"context"
+	"sync"
 	"time"
 
 	"github.com/attestantio/vouch/internal/vnd"
@@ -24,6 +25,21 @@ type Scheduler struct {
 	RunNow    []string
 	Prefixes  []string
 	Queries   []string // names asked about with JobExists
+	Periodic  []*Job   // periodic jobs (never run by the stub; harnesses fire them)
+	// OnSchedule, when set, observes the instant a job comes to exist.
+	OnSchedule func(name string)
+
+	mu sync.Mutex // native runs only: the real code calls the scheduler from several goroutines
+}
+
+// guard serialises the stub in native runs; under the engine threads are
+// cooperative and never interleave inside a stub method.
+func (s *Scheduler) guard() func() {
+	if vnd.Symbolic() {
+		return func() {}
+	}
+	s.mu.Lock()
+	return s.mu.Unlock
 }
 
 func (s *Scheduler) exists(name string) bool {
@@ -36,15 +52,21 @@ func (s *Scheduler) exists(name string) bool {
 }
 
 func (s *Scheduler) ScheduleJob(_ context.Context, class string, name string, runtime time.Time, job scheduler.JobFunc) error {
+	defer s.guard()()
 	if s.exists(name) {
 		return scheduler.ErrJobAlreadyExists
 	}
 	s.Existing = append(s.Existing, name)
 	s.Jobs = append(s.Jobs, &Job{Class: class, Name: name, Time: runtime, Fn: job})
+	if s.OnSchedule != nil {
+		s.OnSchedule(name)
+	}
 	return nil
 }
 
-func (s *Scheduler) SchedulePeriodicJob(_ context.Context, _ string, _ string, _ scheduler.RuntimeFunc, _ scheduler.JobFunc) error {
+func (s *Scheduler) SchedulePeriodicJob(_ context.Context, class string, name string, _ scheduler.RuntimeFunc, job scheduler.JobFunc) error {
+	defer s.guard()()
+	s.Periodic = append(s.Periodic, &Job{Class: class, Name: name, Fn: job})
 	return nil
 }
 
@@ -59,6 +81,7 @@ func (s *Scheduler) remove(name string) bool {
 }
 
 func (s *Scheduler) CancelJob(_ context.Context, name string) error {
+	defer s.guard()()
 	if !s.remove(name) {
 		return scheduler.ErrNoSuchJob
 	}
@@ -67,16 +90,19 @@ func (s *Scheduler) CancelJob(_ context.Context, name string) error {
 }
 
 func (s *Scheduler) CancelJobIfExists(_ context.Context, name string) {
+	defer s.guard()()
 	if s.remove(name) {
 		s.Cancelled = append(s.Cancelled, name)
 	}
 }
 
 func (s *Scheduler) CancelJobs(_ context.Context, prefix string) {
+	defer s.guard()()
 	s.Prefixes = append(s.Prefixes, prefix)
 }
 
 func (s *Scheduler) RunJob(_ context.Context, name string) error {
+	defer s.guard()()
 	if !s.exists(name) {
 		return scheduler.ErrNoSuchJob
 	}
@@ -85,6 +111,7 @@ func (s *Scheduler) RunJob(_ context.Context, name string) error {
 }
 
 func (s *Scheduler) JobExists(_ context.Context, name string) bool {
+	defer s.guard()()
 	s.Queries = append(s.Queries, name)
 	return s.exists(name)
 }
@@ -99,6 +126,7 @@ func (s *Scheduler) Asked(name string) bool {
 }
 
 func (s *Scheduler) RunJobIfExists(_ context.Context, name string) {
+	defer s.guard()()
 	if s.exists(name) {
 		s.RunNow = append(s.RunNow, name)
 	}
